@@ -31,7 +31,8 @@ func init() {
 	Register(&Prop{
 		ID:    "C02",
 		Title: "Projection emits one row per kept row with correctly computed columns",
-		Rule: "rapid draws a typed table (non-negative int, int, fractional, non-zero, nullable numeric, string, bool and object columns; 0-8 rows) " +
+		Rule: "[Dimensions added in rounds p-r of the seeded-defect evaluation: a sixth of the rows of tables with an object column hold a top-level key spelled like a path into it (decoy); a sixth of the enveloped cases run after 1-3 failing statements.] " +
+			"rapid draws a typed table (non-negative int, int, fractional, non-zero, nullable numeric, string, bool and object columns; 0-8 rows) " +
 			"and a select list of 1-5 typed expression trees (depth<=4) over + - * / DIV % & | ^ << >>, unary - ~ !, comparisons, CASE WHEN, " +
 			"literals, column and nested-path references (incl. missing keys), optional * and optional WHERE; about 2.5% of the cases run on a large table (200-700 rows of any residue, the drawn rows repeated in a drawn arrangement); a third of the aliases are spelled like source columns; a quarter of the lists carry an item whose value depends on the prescribed nesting of + or * (cancellation, overflow, absorption), a quarter an equality on a key some rows lack as CASE condition; oracle = independent reference " +
 			"evaluator on float64: row count, exact key set and values per row. Non-trivial: >=1 output row and >=1 operator node. " +
